@@ -321,16 +321,47 @@ fn c04_key_binding() {
     }
     let before = store_snapshot(&c);
     let now = shim::now_secs();
-    let res = match path {
+    let mut rec = match path {
         0 => {
             let ts = SystemTime(now);
             let proof = ProofOfPayment { peer_quotes: vec![(EncodedPeerId::from(peer(0)), quote(0, target, ts))] };
-            block_on(c.node.validate_and_store_record(paid_record(kind, key.clone(), proof)))
+            paid_record(kind, key.clone(), proof)
         }
-        1 => block_on(c.node.validate_and_store_record(unpaid_record(kind, key.clone()))),
-        _ => block_on(c.node.store_replicated_in_record(unpaid_record(kind, key.clone()))),
+        _ => unpaid_record(kind, key.clone()),
     };
-    note(format!("{kind:?} path={} foreign_key={use_foreign} content_already_held={held_under_true_key}", ["client-paid", "unpaid-update", "replication"][path]));
+    // whoever presents a record under a foreign key controls every byte of it: if the name the content determines
+    // appears anywhere in the encoding (an address that carries its name next to the fields the name is derived
+    // from), it is rewritten to the foreign name
+    let mut name_rewritten = false;
+    if use_foreign {
+        let foreign_name = XorName([0x42u8; 32]);
+        let mut rewritten = rec.value.clone();
+        let mut hits = 0;
+        for (from, to) in [(rmp_serde::to_vec(&target).unwrap(), rmp_serde::to_vec(&foreign_name).unwrap()), (target.0.to_vec(), foreign_name.0.to_vec())] {
+            let mut i = 0;
+            while i + from.len() <= rewritten.len() {
+                if rewritten[i..i + from.len()] == from[..] {
+                    rewritten.splice(i..i + from.len(), to.iter().cloned());
+                    i += to.len();
+                    hits += 1;
+                } else {
+                    i += 1;
+                }
+            }
+        }
+        // (the quote of a paid upload legitimately names the content it was issued for: that field is the payer's
+        // business and is checked against the address separately, so it is only rewritten along with the rest)
+        if hits > 0 && choice(2) == 1 {
+            rec.value = rewritten;
+            name_rewritten = true;
+            cover("derived_name_found_on_the_wire_and_rewritten");
+        }
+    }
+    let res = match path {
+        0 | 1 => block_on(c.node.validate_and_store_record(rec)),
+        _ => block_on(c.node.store_replicated_in_record(rec)),
+    };
+    note(format!("{kind:?} path={} foreign_key={use_foreign} content_already_held={held_under_true_key} name_rewritten_on_the_wire={name_rewritten}", ["client-paid", "unpaid-update", "replication"][path]));
     let after = store_snapshot(&c);
     if use_foreign {
         cover("foreign_key");
@@ -366,7 +397,18 @@ fn c07_scratchpad_seq() {
     let c1 = Counter(SymU::fresh("delivered_counter"));
     let old = pad_access::make(&owner, c0, b"old-content", Some(&owner));
     let key = old.network_address().to_record_key();
-    c.net.hold(Record { key: key.clone(), value: try_serialize_record(&old, RecordKind::Scratchpad).unwrap().to_vec(), publisher: None, expires: None });
+    let old_rec = Record { key: key.clone(), value: try_serialize_record(&old, RecordKind::Scratchpad).unwrap().to_vec(), publisher: None, expires: None };
+    // the stored version is settled, or it is the first version ever accepted for the key and its disk write has not
+    // been acknowledged yet (readable from the record cache, not yet in the index)
+    let first_write_pending = choice(2) == 1;
+    if first_write_pending {
+        c.net.inner.index_lag.set(true);
+        let r0 = block_on(c.node.store_replicated_in_record(old_rec.clone()));
+        check_bool("pad:setup_first_version_accepted", r0.is_ok() && stored_pad(&c, &key).is_some());
+        cover("first_write_still_pending");
+    } else {
+        c.net.hold(old_rec.clone());
+    }
     // the delivered version: owner-signed, signed by somebody else, or unsigned; possibly for another owner
     let sig = choice(3);
     let foreign_owner = choice(2) == 1;
@@ -379,8 +421,9 @@ fn c07_scratchpad_seq() {
     let new = pad_access::make(&pad_owner, c1, b"new-content", signer.as_ref());
     let via_replication = choice(2) == 1;
     let rec = Record { key: key.clone(), value: try_serialize_record(&new, RecordKind::Scratchpad).unwrap().to_vec(), publisher: None, expires: None };
-    note(format!("signature={} foreign_owner={foreign_owner} via_replication={via_replication}", ["owner", "other key", "none"][sig]));
+    note(format!("first_write_pending={first_write_pending} signature={} foreign_owner={foreign_owner} via_replication={via_replication}", ["owner", "other key", "none"][sig]));
     let res = if via_replication { block_on(c.node.store_replicated_in_record(rec)) } else { block_on(c.node.validate_and_store_record(rec)) };
+    c.net.complete_writes();
     let now_stored = stored_pad(&c, &key).expect("key still held");
     let replaced = pad_access::payload_of(&now_stored) == b"new-content".to_vec();
     if replaced {
@@ -393,7 +436,14 @@ fn c07_scratchpad_seq() {
         check_bool("pad:kept_version_unchanged", pad_access::payload_of(&now_stored) == b"old-content".to_vec());
         // a validly signed strictly newer version from the owner must not be dropped
         if sig == 0 && !foreign_owner {
-            check("pad:valid_newer_version_is_applied", c0.0.slt(c1.0).not().0);
+            if first_write_pending && !via_replication && res.is_err() {
+                // an unpaid client update is an update of a record the node *holds*; while the first write of the key
+                // has not been acknowledged the node may answer "not held" with an error (the sender knows it was
+                // refused) -- what it must not do is answer Ok and drop it
+                cover("unpaid_update_refused_while_first_write_pending");
+            } else {
+                check("pad:valid_newer_version_is_applied", c0.0.slt(c1.0).not().0);
+            }
         }
     }
     // whatever happened, the counter did not decrease
